@@ -419,7 +419,7 @@ pub fn check_c10(scn: &Scenario) -> Checked {
         final_snap,
         final_verdict,
         twin_runs: 0,
-        cap: 6000,
+        cap: if cfg!(miri) { 40 } else { 6000 },
         capped: false,
         max_depth: 0,
     };
